@@ -53,7 +53,7 @@ def register_providers(P):
     @user_groups_getter(U)
     def u_groups(u): return _form(specific_part(STATE['groups'].get(('U', u.uid), ())))
     @user_roles_getter(U, None)
-    def u_roles(u, obj): return _form([r for r in STATE['roles'].get((('U', u.uid), okey(obj)), ()) if r != 'ra'])
+    def u_roles(u, obj): return _form([r for r in STATE['roles'].get((('U', u.uid), okey(obj)), ()) if r not in FILTERED_ROLE_NAMES])
     @obj_labels_getter()
     def o_labels(obj): return _form([l for l in STATE['labels'].get(okey(obj), ()) if l != 'lb'])
 
@@ -66,15 +66,44 @@ def register_string_user_providers():
         key = ('U', user.uid) if isinstance(user, U) else ('S', user) if isinstance(user, str) else ('P', user.id)
         return _form(extra_part(STATE['groups'].get(key, ())))
     @user_roles_getter(str, None)
-    def s_roles(login, obj): return _form([r for r in STATE['roles'].get((('S', login), okey(obj)), ()) if r != 'ra'])
+    def s_roles(login, obj): return _form([r for r in STATE['roles'].get((('S', login), okey(obj)), ()) if r not in FILTERED_ROLE_NAMES])
 
 def ukey(user):
     return ('U', user.uid) if isinstance(user, U) else ('S', user) if isinstance(user, str) else ('P', user.id)
 
-def register_class_filtered_role_provider(A):
-    # answers only for objects of class A (incl. subclass A2): the role 'ra'; the unfiltered getters never answer 'ra'
-    @user_roles_getter(None, A)
-    def a_roles(user, obj): return _form(['ra']) if 'ra' in STATE['roles'].get((ukey(user), okey(obj)), ()) else None
+# Role getters registered with a class filter answer for a USER, whatever the object: whether the answer reaches a
+# (user, object) pair is decided by the registration (user_cls, obj_cls) alone.  name -> (user kind or None, object classes or None)
+FILTERED_ROLE_GETTERS = [('ra', None, (0, 1)),      # user_roles_getter(None, A): every user, objects of class A (A2 is a subclass)
+                         ('rb', 'U', (2,)),         # user_roles_getter(U, B)
+                         ('rp', 'P', (2,)),         # user_roles_getter(P, B)
+                         ('rg', None, None)]        # user_roles_getter(): every user, every object
+FILTERED_ROLE_NAMES = [g[0] for g in FILTERED_ROLE_GETTERS]
+
+def role_set(roles, name):
+    return roles.get(('set', name), ())
+
+def getter_reaches(name, u, o):
+    kind, classes = [(g[1], g[2]) for g in FILTERED_ROLE_GETTERS if g[0] == name][0]
+    return (kind is None or u[0] == kind) and (classes is None or o[0] in classes)
+
+def roles_of(roles, u, o):
+    """the roles the declarations of the getters give user u on object o (the ground truth of the oracle)"""
+    if u is None: return []
+    out = [r for r in roles.get((u, o), ()) if r not in FILTERED_ROLE_NAMES]
+    for name in FILTERED_ROLE_NAMES:
+        if u in role_set(roles, name) and getter_reaches(name, u, o): out.append(name)
+    return out
+
+def register_class_filtered_role_provider(w):
+    def answer(name, user): return _form([name]) if ukey(user) in role_set(STATE['roles'], name) else None
+    @user_roles_getter(None, w.A)
+    def a_roles(user, obj): return answer('ra', user)
+    @user_roles_getter(U, w.B)
+    def ub_roles(user, obj): return answer('rb', user)
+    @user_roles_getter(w.P, w.B)
+    def pb_roles(user, obj): return answer('rp', user)
+    @user_roles_getter()
+    def g_roles(user, obj): return answer('rg', user)
 
 def register_class_filtered_label_provider(B):
     # registered after the generic label getter, for objects of class B only: the label 'lb'
@@ -85,7 +114,7 @@ def register_entity_user_providers(P):
     @user_groups_getter(P)
     def p_groups(p): return _form(specific_part(STATE['groups'].get(('P', p.id), ())))
     @user_roles_getter(P, None)
-    def p_roles(p, obj): return _form([r for r in STATE['roles'].get((('P', p.id), okey(obj)), ()) if r != 'ra'])
+    def p_roles(p, obj): return _form([r for r in STATE['roles'].get((('P', p.id), okey(obj)), ()) if r not in FILTERED_ROLE_NAMES])
 
 class World(object):
     pass
@@ -169,7 +198,7 @@ def gen_decl(w, rng, small=False):
     perms = rng.choice([['view'], ['view'], ['edit'], ['view', 'edit'], ['delete'], ['create', 'view']])
     if rng.random() < 0.04: perms = []      # perm() without a permission name: TypeError, nothing is registered
     groups = rng.choice([[], [], ['g1'], ['g2'], ['g1', 'g2']])
-    roles = rng.choice([[], [], [], ['r'], ['self'], ['ra'], ['r', 'ra']])
+    roles = rng.choice([[], [], [], ['r'], ['self'], ['ra'], ['r', 'ra'], ['rb'], ['rp'], ['rg'], ['rb', 'rg']])
     labels = rng.choice([[], [], ['l'], ['lb'], ['l', 'lb']])
     ex_choices = [{'e': A}, {'e': A2}, {'e': B}, {'e': C}, {'a': w.aid[w.A.b]}, {'a': w.aid[w.B.as_]}, {'a': w.aid[w.A.n]},
                   {'a': w.aid[w.B.cs]}, {'a': w.aid[w.C.bs]}, {'a': w.aid[w.A.id]}, {'a': w.aid[w.A2.m]}, {'a': w.aid[w.B.k]}]
@@ -190,6 +219,12 @@ def exhaustive_single_rules(w):
                             out.append({'ents': ents, 'perms': perms, 'groups': groups, 'roles': roles, 'labels': labels, 'excl': excl})
     return out
 
+def add_role_sets(roles, rng, users):
+    """which users the class-filtered role getters answer for"""
+    for name in FILTERED_ROLE_NAMES:
+        members = [u for u in users if rng.random() < 0.4]
+        if members: roles[('set', name)] = members
+
 def gen_inputs(w, rng):
     groups = {}
     for u in USERS:
@@ -199,8 +234,8 @@ def gen_inputs(w, rng):
         if u is None: continue
         for o in w.objs:
             r = rng.choice([[], [], ['r'], ['r', 'q'], ['self'] if rng.random() < 0.2 else []])
-            if o[0] in (0, 1) and rng.random() < 0.4: r = r + ['ra']
             if r: roles[(u, o)] = r
+    add_role_sets(roles, rng, [u for u in USERS if u is not None])
     labels = {}
     for o in w.objs:
         l = rng.choice([[], ['l'], ['l', 'm'], ['m']])
@@ -278,10 +313,20 @@ def real_can(w, pairs):
     with db_session:
         for u, t in pairs:
             uu = mk_user(w, u, plain); x = mk_target(w, t)
-            out.append([bool(can_view(uu, x)), bool(can_edit(uu, x)), bool(can_create(uu, x)), bool(can_delete(uu, x))])
+            row = []
+            for fn in (can_view, can_edit, can_create, can_delete):
+                try: row.append(bool(fn(uu, x)))
+                except Exception as e: row.append(type(e).__name__)
+            out.append(row)
     return out
 
 def real_to_json(w, u, data, include, with_schema):
+    try: return _real_to_json(w, u, data, include, with_schema)
+    except Exception as e:                     # whatever escapes from the real code is the observed outcome
+        set_current_user(None)
+        return {'error': 'raised ' + type(e).__name__}, None, None
+
+def _real_to_json(w, u, data, include, with_schema):
     plain = {i: U(i) for i in range(4)}
     with db_session:
         uu = mk_user(w, u, plain)
@@ -295,6 +340,8 @@ def real_to_json(w, u, data, include, with_schema):
                 else: txt = w.db.to_json(payload, include=include, with_schema=with_schema)
             except core.PermissionError:
                 return {'error': 'PermissionError'}, None, None
+            except Exception as e:
+                return {'error': 'raised ' + type(e).__name__}, None, None
             doc = json.loads(txt)
             got = []
             name2id = {e.__name__: i for i, e in enumerate(w.ents)}
@@ -356,19 +403,21 @@ def spec(w, decls, inputs, u, p, t, reasons=None):
     o = tuple(t['o'])
     ur = set()
     if u is not None:
-        ur = set(roles.get((u, o), ()))
+        ur = set(roles_of(roles, u, o))
         if u[0] == 'P' and o == (4, u[1]): ur.add('self')
     ol = set(labels.get(o, ()))
     return any(on_entity(r, o[0]) and r[3] <= ur and r[4] <= ol for r in rules)
 
 # ---------------------------------------------------------------------------------------------------- one case
 
-def role_getters(u, o, names, form):
-    """raw answers of the four registered role getters, in registration order: (U, any obj), (P, any obj), (str, any obj), (any user, A objects)"""
-    plain = [r for r in names if r != 'ra']
+def role_getters(u, o, roles, form):
+    """raw answers of the seven registered role getters, in registration order:
+       (U, any obj), (P, any obj), (str, any obj), then the class-filtered ones of FILTERED_ROLE_GETTERS"""
+    plain = [r for r in roles.get((u, o), ()) if r not in FILTERED_ROLE_NAMES]
     gs = [{'applies': u[0] == k, 'answer': json_answer(raw_form(plain, form)) if u[0] == k else None} for k in ('U', 'P', 'S')]
-    is_a = o[0] in (0, 1)
-    gs.append({'applies': is_a, 'answer': json_answer(raw_form(['ra'], form)) if is_a and 'ra' in names else None})
+    for name in FILTERED_ROLE_NAMES:
+        reaches = getter_reaches(name, u, o)
+        gs.append({'applies': reaches, 'answer': json_answer(raw_form([name], form)) if reaches and u in role_set(roles, name) else None})
     return {'getters': gs}
 
 def label_getters(o, names, form):
@@ -396,7 +445,8 @@ def world_request(w, decls, inputs, calls, tojson, schema, form=None):
             'sub': [[e, s] for e, s in w.sub.items()],
             'attrs': [attr_json(w, a) for a in w.attrs],
             'decls': decls, 'users': users,
-            'roles': [[user_json(u), list(o), role_getters(u, o, r, form) if form is not None else r] for (u, o), r in roles.items()],
+            'roles': [[user_json(u), list(o), role_getters(u, o, roles, form) if form is not None else roles_of(roles, u, o)]
+                      for u in USERS + SUSERS if u is not None for o in w.objs if roles_of(roles, u, o)],
             'labels': [[list(o), label_getters(o, l, form) if form is not None else l] for o, l in labels.items()],
             'calls': [[user_json(u), p, t] for u, p, t in calls],
             'tojson': tojson, 'schema': schema}
@@ -604,6 +654,9 @@ def check_case(ctx, w, c, outs):
         mm = {'error': mt['error']} if 'error' in mt else {'ok': sorted(mt['ok'])}
         if mm != real:
             ctx.divergence('to_json: model and real code disagree on the objects / the PermissionError', tinp, model=mm, impl=real)
+        if 'error' in real and real['error'] != 'PermissionError':
+            ctx.violation('to_json ended with %s instead of serialising the viewable objects or refusing with PermissionError' % real['error'], tinp,
+                          observed=real, expected=mm, key='to_json-raised:%s' % json.dumps([inp['decls'], repr(u), tinp['data'], tinp['include'], real['error']]))
         if 'ok' in real:
             ctx.count('to_json:objects', len(real['ok']))
             for o in real['ok']:
@@ -634,8 +687,8 @@ def gen_session(w, rng, targets):
     for u in SUSERS:
         for o in w.objs:
             r = rng.choice([[], [], ['r'], ['r', 'q']])
-            if o[0] in (0, 1) and rng.random() < 0.4: r = r + ['ra']
             if r: roles[(u, o)] = r
+    add_role_sets(roles, rng, SUSERS)
     labels = {o: ['l'] + (['lb'] if o[0] == 2 and rng.random() < 0.5 else []) for o in w.objs if rng.random() < 0.5}
     users = SUSERS + [None]
     calls = [(rng.choice(users), rng.choice(['view', 'view', 'edit']), rng.choice(targets)) for _ in range(rng.choice([3, 6, 10]))]
@@ -652,7 +705,8 @@ def real_thread(w, sessions):
         try:
             with (db_session(allowed_exceptions=[Boom]) if sn['exit'] == 'allowed' else db_session):
                 for u, p, t in sn['calls']:
-                    answers.append(bool(has_perm(mk_user(w, u, {}), p, mk_target(w, t))))
+                    try: answers.append(bool(has_perm(mk_user(w, u, {}), p, mk_target(w, t))))
+                    except Exception as e: answers.append(type(e).__name__)
                 if sn['tojson'] is not None:
                     u, o = sn['tojson']
                     set_current_user(u[1])
@@ -661,6 +715,8 @@ def real_thread(w, sessions):
                         tj = sorted(doc['objects'])
                     except core.PermissionError:
                         tj = 'PermissionError'
+                    except Exception as e:
+                        tj = 'raised ' + type(e).__name__
                     finally:
                         set_current_user(None)
                 if sn['exit'] in ('rollback', 'allowed'): raise Boom()
@@ -669,6 +725,8 @@ def real_thread(w, sessions):
             ended = 'rollback' if sn['exit'] == 'rollback' else 'commit-after-allowed-exception'
         except core.TransactionIntegrityError:
             ended = 'commit-failed'
+        except Exception as e:
+            ended = 'raised ' + type(e).__name__
         out.append((answers, tj, ended))
     return out
 
@@ -711,7 +769,11 @@ def part_threads(ctx, w, rng):
                 u, o = sn['tojson']
                 exp_view = spec(w, decls, sn['inputs'], u, 'view', {'o': list(o)}) or spec(w, decls, sn['inputs'], u, 'edit', {'o': list(o)})
                 ctx.count('thread:to_json:%s' % ('PermissionError' if tj == 'PermissionError' else 'ok'))
-                if (tj != 'PermissionError') != exp_view:
+                if isinstance(tj, str) and tj.startswith('raised'):
+                    ctx.violation('to_json on behalf of %r ended with %s instead of serialising the object or refusing with PermissionError' % (u[1], tj),
+                                  dict(hinp, session=i, object=describe(w, {'o': list(o)})), observed=tj, expected='objects' if exp_view else 'PermissionError',
+                                  key='to_json-raised:%s' % json.dumps([hinp['decls'], repr(u), describe(w, {'o': list(o)}), tj]))
+                elif (tj != 'PermissionError') != exp_view:
                     report_stale(ctx, w, decls, sessions, i, (u, 'to_json', {'o': list(o)}), tj, 'objects' if exp_view else 'PermissionError', hinp)
     reset_rules(w)
 
@@ -808,7 +870,7 @@ def run(ctx):
     global W
     if W is None:
         W = build_world()
-        register_providers(W.P); register_entity_user_providers(W.P); register_string_user_providers(); register_class_filtered_role_provider(W.A); register_class_filtered_label_provider(W.B)
+        register_providers(W.P); register_entity_user_providers(W.P); register_string_user_providers(); register_class_filtered_role_provider(W); register_class_filtered_label_provider(W.B)
     w = W
     rng = ctx.rng
     witness(ctx, w)
